@@ -149,7 +149,7 @@ func propC18(c *Check) {
 			if call, ok := s.Args[0].(*ssa.Call); ok && len(call.Call.Args) > 0 {
 				pw = p.R(lig).E(call.Call.Args[0])
 			}
-			c.RequireFact(lig, "R2", fmt.Sprintf("ranking-only-positive-power#%d", i), `^\(0 < `+regexp.QuoteMeta(pw)+`\)$|^\(0 != `+regexp.QuoteMeta(pw)+`\)$`, tgt, "ranking insert")
+			c.RequireFact(lig, "R2", fmt.Sprintf("ranking-only-positive-power#%d", i), patPositive(pw), tgt, "ranking insert")
 			if !strings.HasSuffix(pw, ".Power") {
 				c.Violated("R2", fmt.Sprintf("ranking-key#%d", i), p.InstrPos(s.Call), "ranking key power is "+pw)
 			}
@@ -158,6 +158,28 @@ func propC18(c *Check) {
 			if v := p.R(lig).E(s.Args[1]); !strings.HasSuffix(v, ".Power") {
 				c.Violated("R2", fmt.Sprintf("validator-set-power#%d", i), p.InstrPos(s.Call), "recorded power is "+v)
 			}
+		}
+	}
+	// the derived indexes are rebuilt under exactly the runtime conditions: no other fact may be necessary to reach the insert
+	allowedNec := map[string]*regexp.Regexp{
+		"Locking.Set":      regexp.MustCompile(`\.Status (==|!=) |(==|!=) .*\.Status\)$| == nil\)$|^\(φ\{\(1 \+ @\)\|0\} < len\(|^\(len\(.*\) <= φ\{\(1 \+ @\)\|0\}\)$`),
+		"PowerRanking.Set": regexp.MustCompile(`\.Status (==|!=) |(==|!=) .*\.Status\)$| == nil\)$|^\(φ\{\(1 \+ @\)\|0\} < len\(|^\(len\(.*\) <= φ\{\(1 \+ @\)\|0\}\)$|\.Power`),
+		"ValidatorSet.Set": regexp.MustCompile(`\.Status (==|!=) |(==|!=) .*\.Status\)$| == nil\)$|^\(φ\{\(1 \+ @\)\|0\} < len\(|^\(len\(.*\) <= φ\{\(1 \+ @\)\|0\}\)$`),
+	}
+	for i, s := range p.StoreSites(lig) {
+		re, ok := allowedNec[s.Field.Name()+"."+s.Method]
+		if !ok {
+			continue
+		}
+		bad := false
+		for _, nf := range p.necessaryFacts(lig, s.Call) {
+			if !re.MatchString(nf.Fact) {
+				bad = true
+				c.Violated("R2", fmt.Sprintf("rebuild-condition %s.%s#%d @ %s", s.Field.Name(), s.Method, i, FuncKey(lig)), p.InstrPos(s.Call), "the derived index is rebuilt only under "+nf.Fact+", a condition the running chain does not apply when it maintains this index: entries are missing after import")
+			}
+		}
+		if !bad {
+			c.Held("R2", fmt.Sprintf("rebuild-condition %s.%s#%d @ %s", s.Field.Name(), s.Method, i, FuncKey(lig)), p.InstrPos(s.Call), "only status / loop / error conditions"+map[bool]string{true: " / power", false: ""}[s.Field.Name() == "PowerRanking"])
 		}
 	}
 	// the initial validator updates are exactly the Active validators with their power
